@@ -452,7 +452,7 @@ class Analysis:
                 vals = [v if v is not None else self.load(k, merged[o]) for v, o in zip(vals, keys)]
             if all(v == vals[0] for v in vals):
                 out.store.set(k, vals[0])
-            elif len(keys) == 2 and set(keys) <= {'0', '1', 'otherwise'} and self._is_boolish(cond0):
+            elif len(keys) == 2 and '0' in keys and set(keys) <= {'0', '1', 'otherwise'} and self._is_boolish(cond0):
                 tv = vals[keys.index('0')]
                 other = [o for o in keys if o != '0'][0]
                 out.store.set(k, mk('gamma', cond0, vals[keys.index(other)], tv))
